@@ -103,6 +103,12 @@ theorem request_numbers_unique (file : Bytes) (maxReq bufsize : Nat) (acts : Lis
     Live (run (init file maxReq bufsize) acts) ∧ Uniq (run (init file maxReq bufsize) acts) :=
   ⟨by decide, run_live_uniq (init_live file maxReq bufsize) (init_uniq file maxReq bufsize) acts hcaps⟩
 
+/-- The model's locked regions (`tCheck`, `tReg`, the locked part of `_async_response`) are single atomic actions that
+    never wait for the lock themselves; that the code does not ask for `_prefetch_lock` — a plain, non-re-entrant
+    `threading.Lock` — while holding it (no `with self._prefetch_lock:` block calls its own method or another one
+    that takes the lock) is read from the AST of `SFTPFile` on every run.  The no-hang theorems below stand on it. -/
+theorem prefetch_lock_never_reentered : PV.Generated.C28.prefetchLockNotReentered = true := by decide
+
 /-- **A blocked reader is never stuck.**  After any schedule of any program whose caps are `None` or ≥ 1: whenever
     the reader cannot take its next step — it waits for a response packet (inside `_read_prefetch` or inside a
     synchronous read) and none is queued, **or** it spins in `_async_response` because the answer in hand arrived
